@@ -19,13 +19,14 @@ VA == V(1)          \* the argument of the rule head
 BBodies == { T(<<X>>), Nil }
 \* a(p) --> A1.   a(q) --> A2.
 ABodies == { T(<<X>>), T(<<Y>>), T(<<X, Y>>), Nil, And(NT("b"), T(<<X>>)), C(";", <<T(<<X>>), NT("b")>>), And(T(<<X>>), A("!")), And(A("!"), NT("b")),
-             And(C("\\+", <<T(<<Y>>)>>), NT("b")), C("{}", <<A("true")>>), C("{}", <<A("fail")>>), And(NT("b"), And(A("!"), T(<<Y>>))) }
+             And(C("\\+", <<T(<<Y>>)>>), NT("b")), C("{}", <<A("true")>>), C("{}", <<A("fail")>>), And(NT("b"), And(A("!"), T(<<Y>>))),
+             And(T(<<X>>), C("\\+", <<T(<<Y>>)>>)), C("\\+", <<T(<<X>>)>>) }        \* \+ as the LAST goal of a body: it must not see the remainder
 \* s(A) --> S1.   s(r) --> S2.
 SBodies == { And(NTa("a", VA), NT("b")), And(NTa("a", VA), And(A("!"), NT("b"))), C(";", <<NTa("a", VA), NT("b")>>), C("|", <<NTa("a", VA), T(<<Y>>)>>),
              And(C("\\+", <<NTa("a", V(2))>>), NT("b")), C(";", <<C("->", <<NTa("a", VA), NT("b")>>), T(<<Y>>)>>), And(C("call", <<A("a"), VA>>), NT("b")),
              And(NTa("a", VA), And(C("{}", <<A("!")>>), NT("b"))), And(NTa("a", VA), NTa("a", V(2))), And(And(NTa("a", VA), A("!")), NT("b")),
-             And(NTa("a", VA), And(C("{}", <<C("=", <<VA, A("q")>>)>>), NT("b"))), And(T(<<X>>), And(NTa("a", VA), T(<<Y>>))) }
-S2Bodies == { T(<<X>>), NT("b"), And(NT("b"), A("!")) }
+             And(NTa("a", VA), And(C("{}", <<C("=", <<VA, A("q")>>)>>), NT("b"))), And(T(<<X>>), And(NTa("a", VA), T(<<Y>>))), And(NTa("a", VA), C("\\+", <<NT("b")>>)) }
+S2Bodies == { T(<<X>>), NT("b"), And(NT("b"), A("!")), And(T(<<X>>), C("\\+", <<NT("b")>>)) }
 
 Cl(id, r) == [id |-> id, head |-> r.head, body |-> r.body, nv |-> r.nv]
 \* b1pb: the first rule of b has the push-back [y]:  b, [y] --> B1.
@@ -41,15 +42,18 @@ Inputs == UNION { [1..k -> {X, Y}] : k \in 0..NI }
 Grammars == IF FULL THEN { <<s1, s2, a1, a2, b1, pb>> : s1 \in SBodies, s2 \in S2Bodies, a1 \in ABodies, a2 \in {T(<<X>>), NT("b")}, b1 \in BBodies, pb \in BOOLEAN }
             ELSE { <<s1, s2, a1, a2, b1, pb>> : s1 \in SBodies, s2 \in {T(<<X>>)}, a1 \in ABodies, a2 \in {NT("b")}, b1 \in {T(<<X>>)}, pb \in BOOLEAN }
 \* query modes: "rest" phrase(s(A), Input, Rest); "all" phrase(s(A), Input); "gen" phrase(s(A), L)
-Modes == IF GEN THEN {"rest", "all", "gen"} ELSE {"rest", "all"}
+\*              "rem1" / "rem2" phrase(s(A), Input, Suffix) with the remainder GIVEN: the last one / two elements of the input
+Modes == IF GEN THEN {"rest", "all", "gen", "rem1", "rem2"} ELSE {"rest", "all", "rem1", "rem2"}
 VARIABLES st, hist, gr, inp, mode
 gvars == <<st, hist, gr, inp, mode>>
 
 Query(m, i) == CASE m = "rest" -> C("s", <<V(1), T(i), V(2)>>)
                  [] m = "all" -> C("s", <<V(1), T(i), Nil>>)
                  [] m = "gen" -> C("s", <<V(1), V(2), Nil>>)
+                 [] m = "rem1" -> C("s", <<V(1), T(i), T(SubSeq(i, Len(i), Len(i)))>>)
+                 [] m = "rem2" -> C("s", <<V(1), T(i), T(SubSeq(i, Len(i) - 1, Len(i)))>>)
 GInit == /\ gr \in Grammars /\ mode \in Modes
-         /\ inp \in (IF mode = "gen" THEN {<<>>} ELSE Inputs)
+         /\ inp \in (IF mode = "gen" THEN {<<>>} ELSE IF mode = "rem1" THEN { i \in Inputs : Len(i) >= 1 } ELSE IF mode = "rem2" THEN { i \in Inputs : Len(i) >= 2 } ELSE Inputs)
          /\ st = InitState(Db(gr[1], gr[2], gr[3], gr[4], gr[5], gr[6]), Query(mode, inp), 2)
          /\ hist = <<>>
 Answers == Len(SelectSeq(hist, LAMBDA e : e.ev = "ans"))
